@@ -67,7 +67,7 @@ func runC13(c *Ctx) {
 					last := b.Instrs[len(b.Instrs)-1]
 					switch x := last.(type) {
 					case *ssa.Return:
-						if n, ok := constInt(x.Results[0]); ok {
+						if n, ok := constInt(unspill(x, 0)); ok {
 							res = n
 						}
 						steps = 99
@@ -207,8 +207,8 @@ func runC13(c *Ctx) {
 		nPlain := 0
 		for _, in := range instrsWhere(cn, isReturn) {
 			ret := in.(*ssa.Return)
-			v := stripIface(ret.Results[0])
-			if isNilConst(ret.Results[0]) {
+			v := stripIface(unspill(ret, 0))
+			if isNilConst(unspill(ret, 0)) {
 				continue
 			}
 			if strings.HasSuffix(v.Type().String(), "mtls.TLSConn") {
@@ -397,7 +397,7 @@ func runC13(c *Ctx) {
 						}
 					}
 				}
-				walk(in.(*ssa.Return).Results[0], 0)
+				walk(unspill(in.(*ssa.Return), 0), 0)
 				alpnNil := false
 				for _, g := range guardsAt(in.Block()) {
 					if bo, ok := g.Cond.(*ssa.BinOp); ok && isNilConst(bo.Y) && (bo.X == alpnPhi || phiFeeds(alpnPhi, bo.X)) {
